@@ -119,10 +119,15 @@ func (b *CombinationColexIterator) Next() bool {
 
 //MultisetCombinationIterator iterates over all multisets containing k elements and with a maximum of m[i] copies of i. Value returns the multiset of k elements and FreqValue returns a slice v where v[i] is the number of copies of i in the multiset.
 type MultisetCombinationIterator struct {
+	//Algorithm Q runs on the types with a positive multiplicity only: m holds their multiplicities and state their counts.
 	state []int
 	m     []int
 	k     int
 	j     int
+
+	//all holds the multiplicities as given and freq the counts indexed like all. This is what FreqValue returns.
+	all  []int
+	freq []int
 
 	//A buffer slice to return the value in as we iterate using FreqValue
 	value []int
@@ -133,7 +138,14 @@ type MultisetCombinationIterator struct {
 
 //MultisetCombinations returns an iterator which iterates over all multisets containing k elements and with a maximum of m[i] elements of type i. Value returns the multiset of k items and FreqValue returns a slice v where v[i] is the number of i in the multiset.
 func MultisetCombinations(m []int, k int) *MultisetCombinationIterator {
-	return &MultisetCombinationIterator{state: nil, m: m, k: k}
+	//A type with no copies allowed never appears in a multiset, so the algorithm only needs to see the other types.
+	positive := make([]int, 0, len(m))
+	for _, v := range m {
+		if v > 0 {
+			positive = append(positive, v)
+		}
+	}
+	return &MultisetCombinationIterator{state: nil, m: positive, all: m, k: k}
 }
 
 //Value returns the multiset of k elements.
@@ -141,7 +153,7 @@ func MultisetCombinations(m []int, k int) *MultisetCombinationIterator {
 func (iter MultisetCombinationIterator) Value() []int {
 	c := 0
 
-	for i, v := range iter.state {
+	for i, v := range iter.freq {
 		for j := 0; j < v; j++ {
 			iter.value[c] = i
 			c++
@@ -154,7 +166,7 @@ func (iter MultisetCombinationIterator) Value() []int {
 //FreqValue returns a slice v where v[i] is the number of i in the multiset.
 //You must not modify the return value.
 func (iter MultisetCombinationIterator) FreqValue() []int {
-	return iter.state
+	return iter.freq
 }
 
 //Next attempts to advance the iterator to the next multiset, returning true if there is one and false if not.
@@ -166,6 +178,18 @@ func (iter *MultisetCombinationIterator) Next() bool {
 	if !iter.next() {
 		iter.done = true
 		return false
+	}
+
+	//Put the counts of the types with copies back at their positions. The other entries of freq stay 0.
+	if iter.freq == nil {
+		iter.freq = make([]int, len(iter.all))
+	}
+	i := 0
+	for t, v := range iter.all {
+		if v > 0 {
+			iter.freq[t] = iter.state[i]
+			i++
+		}
 	}
 	return true
 }
